@@ -9,7 +9,7 @@ from datetime import date
 from .common import KIND, Hist, make_cfg, run_tax, slot
 
 PROPS = ("C07", "C08")
-BUDGET = {"quick": 900, "thorough": 3000}
+BUDGET = {"quick": 900, "thorough": 1500}
 ACCOUNTS = [("X1", "H1"), ("X2", "H1"), ("X1", "H2"), ("X2", "H2")]
 TOL = 10  # 1e-10 in units of 1e-11
 
